@@ -42,6 +42,12 @@ impl Conflict {
         }
     }
 
+    /// Returns the ids of the clauses involved in the conflict.
+    #[cfg(feature = "verif-hooks")]
+    pub fn verif_clauses(&self) -> Vec<u32> {
+        self.clauses.iter().map(|c| c.to_usize() as u32).collect()
+    }
+
     /// Generates a graph representation of the conflict (see [`ConflictGraph`]
     /// for details)
     pub fn graph<D: DependencyProvider, RT: AsyncRuntime>(
